@@ -96,11 +96,17 @@ func assignIDs(er *estargz.Reader, e *estargz.TOCEntry) (rootID uint32, idMap ma
 		return curID, nil
 	}
 
+	onPath := make(map[*estargz.TOCEntry]struct{}) // entries between the root and the current one
 	var mapChildren func(e *estargz.TOCEntry) (uint32, error)
 	mapChildren = func(e *estargz.TOCEntry) (uint32, error) {
 		if e.Type == "hardlink" {
 			return 0, fmt.Errorf("unexpected type \"hardlink\": this should be replaced to the destination entry")
 		}
+		if _, ok := onPath[e]; ok {
+			return 0, fmt.Errorf("entry %q contains itself (hardlink to a parent directory)", e.Name)
+		}
+		onPath[e] = struct{}{}
+		defer delete(onPath, e)
 
 		var ok bool
 		id, ok := idOfEntry[e.Name]
